@@ -1,6 +1,6 @@
 //! C09: variable scopes and attributes.
 //!  `envapi`: op sequences directly on `ShellEnvironment` / `ShellVariable`.
-//!            Case fields: the op tokens (see coq/theories/Shell/Entry.v, `api_step`).
+//!            Case fields: the op tokens (see coq/theories/Scope/Entry.v, `api_step`).
 //!  `envsh` : programs run in an in-process shell, one `run_string` per step.
 //!            Case fields: <names,comma separated> <setup script> <step script>*
 //!            Function bodies call the harness builtins `__probe tag n1 n2 ..` (dumps the scope
